@@ -571,6 +571,41 @@ theorem C09_tree_union (L : Leaves V) (as : List Ty) (u : Nat) (o : Opts) (v : V
   rw [this]
   exact C09_union_refines _ o v (by simpa using hne)
 
+/-- In a tree, "of exactly the argument's type" can only be said of a plain class or a data class — never of a
+constrained `Rule` type (whatever decides its acceptance: validators, `contains`, item types, user hooks) nor of
+a combinator: those arguments always go through their own parser. -/
+theorem C09_tree_exact_only_classes (L : Leaves V) (t : Ty) (v : V) (h : (evalTy L t).exact v = true) :
+    (∃ i, t = .cls i ∧ L.exact i v = true) ∨ (∃ i, t = .dc i ∧ L.exact i v = true) := by
+  cases t <;> simp [evalTy] at h
+  · exact Or.inl ⟨_, rfl, h⟩
+  · exact Or.inr ⟨_, rfl, h⟩
+
+/-- if the leaves obey transform.py's exact-type law, so do the arguments of every node -/
+theorem C09_tree_exact_law (L : Leaves V) (hL : ∀ i o v, L.exact i v = true → L.run i o v = .ok v) (as : List Ty) :
+    ExactLaw (as.map (evalTy L)) := by
+  intro a ha o v hx
+  obtain ⟨t, _, rfl⟩ := List.mem_map.mp ha
+  rcases C09_tree_exact_only_classes L t v hx with ⟨i, rfl, h⟩ | ⟨i, rfl, h⟩
+  · simpa [evalTy] using hL i o v h
+  · simpa [evalTy] using hL i o v h
+
+/-- Soundness of a union node, with no exception for the exact-type fast path: whatever a union node returns is
+the output of one of its sub-trees on the same input (under one of the stage option sets) — in particular a union
+never accepts a value that every one of its arguments rejects at every stage. -/
+theorem C09_tree_union_sound (L : Leaves V) (hL : ∀ i o v, L.exact i v = true → L.run i o v = .ok v)
+    (as : List Ty) (u : Nat) (o : Opts) (v r : V) (hne : as ≠ [])
+    (h : (evalTy L (.comb .any as u)).run o v = .ok r) :
+    ∃ a ∈ as, ∃ s, (evalTy L a).run s v = .ok r := by
+  have hrun : (evalTy L (.comb .any as u)).run = logicalUnion (as.map (evalTy L)) := by
+    simp [evalTy, evalArgs_eq_map]
+  rw [hrun] at h
+  rcases C09_union_result _ o v r (by simpa using hne) h with ⟨hx, rfl⟩ | ⟨a, ha, s, _, hr, _⟩
+  · obtain ⟨a, ha, he⟩ := List.any_eq_true.mp hx
+    obtain ⟨t, ht, rfl⟩ := List.mem_map.mp ha
+    exact ⟨t, ht, o, C09_tree_exact_law L hL as _ ha o r he⟩
+  · obtain ⟨t, ht, rfl⟩ := List.mem_map.mp ha
+    exact ⟨t, ht, s, hr⟩
+
 /-! ## Part B — construction obeys the algebra users rely on -/
 
 /-- Double negation cancels: `~~t` is `t` itself (the same object) for every utype type that is not itself a
